@@ -149,3 +149,18 @@ def build_children(descr):
                 env[leaf] = 1 - tv
             children.append(node)
     return children, env
+
+
+def concrete_id(c, model, term, default):
+    """a concrete string for a symbolic id that satisfies the string predicates (startswith / endswith / in) the
+    counter-model makes true of it"""
+    name = default
+    for (kind, lit), f in c.__dict__.get("str_preds", {}).items():
+        if z3.is_true(model.eval(f(term), model_completion=True)):
+            if kind == "startswith" and not name.startswith(lit):
+                name = lit + name
+            elif kind == "endswith" and not name.endswith(lit):
+                name = name + lit
+            elif kind == "contains" and lit not in name:
+                name = name + lit
+    return name
